@@ -23,25 +23,49 @@ def run_one(s):
     N, ck, kill = cfg["N"], cfg["ckint"], cfg["kill"]
     base = os.environ.get("VERIF_TMP") or None
     wd = tempfile.mkdtemp(prefix="c19-", dir=base)
-    tr = {"exc": "", "files": {}}
+    tr = {"exc": "", "files": {}, "files2": {}}
+    # callback / file names: plain, or (every third scenario) with a dot in it, as in "run_lr0.01"
+    wname = "w_lr0.5" if s["tid"] % 3 == 0 else "w"
+    sname = "state_v1.2" if s["tid"] % 3 == 0 else "state"
     try:
         def run0():
-            cb = lambda objs: [tp.utils.WeightSaveCallback(objs["model"], wd, "w", check_interval=ck, save_initial_model=True, save_final_model=True)]
-            log, objs, trainer, _ = c07.fit(cfg, N, wd, callbacks_extra=cb)
-            return c07.snapshot(objs, trainer), log
+            keep = {}
+
+            def cb(objs):
+                keep["cb"] = tp.utils.WeightSaveCallback(objs["model"], wd, wname, check_interval=ck, save_initial_model=True, save_final_model=True)
+                return [keep["cb"]]
+            log, objs, trainer, solver = c07.fit(cfg, N, wd, callbacks_extra=cb)
+            snap = c07.snapshot(objs, trainer)
+            first_final = {nm: (load_ab(os.path.join(wd, "%s_%s.pt" % (wname, nm)), cfg) if os.path.exists(os.path.join(wd, "%s_%s.pt" % (wname, nm))) else [])
+                           for nm in ("init", "min_loss", "final")}
+            # a second training phase: the SAME solver and the SAME callback object, a fresh Trainer, the same number of steps
+            import pytorch_lightning as pl, warnings
+            tr2 = pl.Trainer(max_steps=N, logger=False, enable_checkpointing=False, enable_progress_bar=False, enable_model_summary=False,
+                             num_sanity_val_steps=0, accelerator="cpu", devices=1, default_root_dir=wd, callbacks=[keep["cb"]], limit_val_batches=0)
+            with warnings.catch_warnings():
+                warnings.simplefilter("ignore")
+                tr2.fit(solver)
+            snap2 = c07.snapshot(objs, None)
+            return snap, log, first_final, snap2
         r = watched(run0, 90)
         if r[0] != "ok":
             tr["exc"] = "run0:" + (r[1] if len(r) > 1 else "hang")
             return tr
         tr["run0"], tr["log0"] = r[1][0], [e for e in r[1][1] if e["e"] == "step"]
         for nm in ("init", "min_loss", "final"):
-            p = os.path.join(wd, "w_%s.pt" % nm)
-            tr["files"][nm] = load_ab(p, cfg) if os.path.exists(p) else []
+            p = os.path.join(wd, "%s_%s.pt" % (wname, nm))
+            val = load_ab(p, cfg) if os.path.exists(p) else []
+            tr["files"][nm] = r[1][2][nm]            # (the files as they were after the FIRST phase)
+            tr["files2"][nm] = val
+        tr["phase2"] = {"a": r[1][3]["a"], "b": r[1][3]["b"]}
+        for f_ in os.listdir(wd):
+            if f_.endswith(".pt"):
+                os.unlink(os.path.join(wd, f_))
 
         def run1():
-            cb = lambda objs: [tp.utils.TrainerStateCheckpoint(wd, "state", check_interval=ck)]
+            cb = lambda objs: [tp.utils.TrainerStateCheckpoint(wd, sname, check_interval=ck)]
             c07.fit(cfg, kill, wd, callbacks_extra=cb)
-            return os.path.exists(os.path.join(wd, "state.ckpt"))
+            return os.path.exists(os.path.join(wd, sname + ".ckpt"))
         r = watched(run1, 90)
         if r[0] != "ok" or not r[1]:
             tr["exc"] = "run1:" + (r[1] if r[0] != "ok" and len(r) > 1 else "no-checkpoint")
@@ -49,7 +73,7 @@ def run_one(s):
         # the crash: nothing of run 1 survives except the file
 
         def run2():
-            log, objs, trainer, _ = c07.fit(cfg, N, wd, ckpt_path=os.path.join(wd, "state.ckpt"))
+            log, objs, trainer, _ = c07.fit(cfg, N, wd, ckpt_path=os.path.join(wd, sname + ".ckpt"))
             return c07.snapshot(objs, trainer), int(trainer.global_step), log
         r = watched(run2, 90)
         if r[0] != "ok":
